@@ -21,6 +21,8 @@ C01  Progeny inherit only their designated parents' haplotypes (Mendelian fideli
 """
 import ast
 
+from sa.ctorflow import wire
+
 from sa.astutil import dump, where, kwargs_of, walk_no_nested, field_of, is_const, same_expr, is_guard, is_diagnostic
 from sa.model import AnalysisError, body_nodoc
 
@@ -1078,3 +1080,4 @@ def run(prog, rep, tier):
         check_args_purity(prog, rep, c)
         check_meiosis_calls(prog, rep, c)
     check_siblings(prog, rep)
+    wire(prog, rep, "C01", 0, 110)
